@@ -215,6 +215,27 @@ def c17(ctx):
                     except Exception as e:  # noqa
                         bad.append({"generator": name, "seed": s, "pretty": pretty, "problem": f"{type(e).__name__}: {e}"[:200]})
         PR.use_pretty_numbers(True)
+        # every pair / triple of NEIGHBOURING pool variables held out, asking for all the others: the answer is forced
+        for common_ in (False, True):
+            pool_ = list("xyz") if common_ else list(PR.variables)
+            for width in (2, 3):
+                for i_ in range(0, len(pool_) - width + 1):
+                    excl_ = pool_[i_: i_ + width]
+                    for order_ in (excl_, excl_[::-1]):
+                        n_ = len(pool_) - width
+                        if n_ < 1:
+                            continue
+                        n_eval += 1
+                        random.seed(i_ * 7 + width)
+                        try:
+                            vs_ = PR.get_rand_vars(n_, list(order_), common_)
+                        except Exception as e_:  # noqa
+                            bad.append({"helper": "get_rand_vars", "n": n_, "exclude": order_, "common": common_,
+                                        "problem": "raised " + type(e_).__name__})
+                            continue
+                        if sorted(vs_) != sorted(v for v in pool_ if v not in excl_):
+                            bad.append({"helper": "get_rand_vars", "n": n_, "exclude": order_, "common": common_, "got": vs_,
+                                        "problem": "not the variables outside the exclusions"})
         # helpers
         for s in range(seeds * 3):
             random.seed(s)
